@@ -276,6 +276,17 @@ impl Transaction {
     }
 }
 
+#[cfg(facebook_akd_verif)]
+impl Transaction {
+    /// Verification hook: exposes the private `find_appropriate_item`.
+    pub(crate) fn verif_find_appropriate_item(
+        intermediate: Vec<ValueState>,
+        flag: ValueStateRetrievalFlag,
+    ) -> Option<ValueState> {
+        Self::find_appropriate_item(intermediate, flag)
+    }
+}
+
 #[cfg(test)]
 mod tests {
     use super::*;
